@@ -49,8 +49,20 @@ def guard_and_must(ck, f, label, rule_guard="R-C03-GUARD", rule_must="R-C03-MUST
     n = 0
     for r in reps:
         n += 1
-        ps = fin.explore(f, None, {("a", ci): r}, classify, max_states=200000, arith=False)
         where = relpath("%s:%d" % (f.file, f.line))
+        try:
+            ps = fin.explore(f, None, {("a", ci): r}, classify, max_states=200000, arith=False)
+        except Broken:
+            if r < TAG:
+                raise
+            # the path enumeration does not terminate within its bound (loops whose trip counts the class does not fix): the same statement
+            # as plain reachability - with the branches that compare clen itself with a constant decided for this class, no return is
+            # reachable without entering the block of the check_tag call, and what is returned is that call's value on every edge left
+            why = _must_by_reachability(f, call, ci, r)
+            ck.ob(why is None, rule_must, f.name, "verdict(clen=%s)[%s]" % (r if r < 1 << 32 else hex(r), label),
+                  "clen = %d: no return is reachable without the check_tag call and every return hands on its verdict (reachability over the CFG with the clen guards decided)" % r,
+                  "clen = %d: %s" % (r, why), where=where)
+            continue
         if r < TAG:
             ok = bool(ps)
             why = ""
@@ -76,6 +88,68 @@ def guard_and_must(ck, f, label, rule_guard="R-C03-GUARD", rule_must="R-C03-MUST
                   % (r, badp[0].ret if badp else "nothing"), where=where,
                   path=ir.path_desc(f, badp[0].blocks[:12]) if badp else None)
     return n
+
+
+def _must_by_reachability(f, call, ci, r):
+    """-> None, or why a return may hand on something else than check_tag's verdict for inputs of the class of r"""
+    keep = {}
+    for b in f.blocks:
+        t = f.term(b.id)
+        succ = list(t.get("succ") or []) if t.op == "br" else list(b.succs)
+        if t.op == "br" and t.get("cond") and t.ops[0][0] == "i":
+            C = f.inst(t.ops[0])
+            if C is not None and C.op == "icmp":
+                x, y = tuple(C.ops[0]), tuple(C.ops[1])
+                val = None
+                if x == ("a", ci) and y[0] == "c":
+                    val = ir.eval_icmp(C.get("pred"), r, const_val(y), 64)
+                elif y == ("a", ci) and x[0] == "c":
+                    val = ir.eval_icmp(C.get("pred"), const_val(x), r, 64)
+                if val is not None:
+                    succ = [succ[0]] if val else [succ[1]]
+        keep[b.id] = succ
+    cb = call.b
+    # reachable without entering the call's block
+    seen, todo = {0}, [0]
+    if cb == 0:
+        seen, todo = set(), []
+    while todo:
+        b = todo.pop()
+        if f.term(b).op == "ret":
+            return "a return at %s is reachable without calling check_tag (the tag is not verified on that path)" % relpath(f.term(b).where)
+        for s_ in keep[b]:
+            if s_ != cb and s_ not in seen:
+                seen.add(s_)
+                todo.append(s_)
+    # everything reachable at all
+    allr, todo = {0}, [0]
+    while todo:
+        b = todo.pop()
+        for s_ in keep[b]:
+            if s_ not in allr:
+                allr.add(s_)
+                todo.append(s_)
+    cv = ("i", call.id)
+
+    def leaves(v, depth=0):
+        v = tuple(v)
+        if v == cv:
+            return set()
+        I = f.inst(v)
+        if I is not None and I.op == "phi" and depth < 8:
+            out = set()
+            for inc, pb in I.get("inc"):
+                if pb in allr and I.b in keep.get(pb, ()):
+                    out |= leaves(inc, depth + 1)
+            return out
+        return {v}
+    for R in f.rets():
+        if R.b not in allr or not R.ops:
+            continue
+        bad = leaves(R.ops[0])
+        if bad:
+            return "the return at %s can hand on %s instead of check_tag's verdict" % (relpath(R.where), sorted(bad, key=repr)[:2])
+    return None
 
 
 def args_rule(ck, mod, f, label, parts=("C03", "C04")):
